@@ -163,3 +163,15 @@ def with_callees(p: Program, fi, depth: int = 2):
                     nxt.append(g)
         frontier = nxt
     return list(seen.values())
+
+
+def referenced_functions(p: Program, fi):
+    """Package functions named (called or passed as a value) anywhere in fi, lambdas included."""
+    import ast
+    out = {}
+    for n in ast.walk(fi.node):
+        if isinstance(n, ast.Name) and isinstance(n.ctx, ast.Load):
+            r = p.resolve_global(fi.module, n.id)
+            if r and r[0] == "func":
+                out[r[1].qualname] = r[1]
+    return list(out.values())
